@@ -39,7 +39,7 @@ def configs(gen=2):
             out.append(dict(schema=sc, via_update=via, focus=3, mask=G3, grid=3, cues=0x02, loops=0x80, wave=0))
             out.append(dict(schema=sc, via_update=via, focus=3, mask=0, grid=0, cues=0, loops=0, wave=0))
             if not Q:
-                out.append(dict(schema=sc, via_update=via, focus=2, mask=0xAAAAAAAAAAAAAAA, grid=1, cues=0xFF, loops=0xFF, wave=0))
+                out.append(dict(schema=sc, via_update=via, focus=2, mask=0xAAAAAAAAAAAAAAA, grid=1 if gen == 2 else 2, cues=0xFF, loops=0xFF, wave=0))     # (1.x rejects a one-marker grid)
                 out.append(dict(schema=sc, via_update=via, focus=3, mask=0x555555555555555 & G3, grid=5, cues=0x10, loops=0x01, wave=0))
         # group 1 (numeric sentinels: loudness, main cue, sample rate/count, duration, rating, bpm): 64 (2.x) / 160 (1.x) paths each
         if gen == 2 or not Q or sc == schemas[-1]:
@@ -58,7 +58,7 @@ def main():
     jobs = [dict(harness='h_track_v2.cpp', ll=ll, entry='h_c01', params=p, models=['zlib_identity', 'kv_track_fast'], known=ck.known, must_reach=['compared', 'fixed-point'],
                  eng_opts=eo, replay='none', time_limit=1500, allow_throw='none') for p in configs(2)]
     ll1 = driver.compile_ir('h_track_v1.cpp'); driver.load_module(ll1)
-    jobs += [dict(harness='h_track_v1.cpp', ll=ll1, entry='h_c01', params=p, models=['zlib_identity', 'kv_track_v1'], known=ck.known, must_reach=['compared', 'fixed-point'],
+    jobs += [dict(harness='h_track_v1.cpp', ll=ll1, entry='h_c01', params=p, models=['zlib_identity', 'kv_track_v1_slow' if p['focus'] == 1 else 'kv_track_v1'], known=ck.known, must_reach=['compared', 'fixed-point'],
                   eng_opts=eo, replay='none', time_limit=1500, allow_throw='none') for p in configs(1)]
     if os.environ.get('VERIF_GEN'): jobs = [j for j in jobs if str(j['params']['gen']) == os.environ['VERIF_GEN']]
     jobs.sort(key=lambda j: -(j['params']['focus'] == 1))
